@@ -363,14 +363,21 @@ where
             goals.push(rng.below(n));
         }
         let exact = abstract_dist_to(ag, &goals);
-        let kind = if wide { 2 + rng.below(2) } else { rng.below(4) };
+        let kind = if wide { 2 + rng.below(3) } else { rng.below(5) };
+        // kind 4: exact everywhere except one or two nodes that are under-estimated: those are expanded too early,
+        // possibly over a worse route, and must be expanded AGAIN when the better route is found
+        let low: Vec<usize> = (0..(1 + rng.below(2))).map(|_| rng.below(n)).collect();
         let h: Vec<i64> = (0..n).map(|v| match kind {
+            4 => if exact[v] >= INF { 7 } else if low.contains(&v) { rng.range(0, exact[v]) } else { exact[v] },
             0 => 0,
             1 => if exact[v] >= INF { 7 } else { exact[v] },
             3 => if exact[v] >= INF { 7 } else if rng.chance(1, 2) { exact[v] } else { 0 },     // exact on some nodes, blind on others
             _ => if exact[v] >= INF { rng.below(9) as i64 } else { rng.range(0, exact[v]) }, // admissible, inconsistent
         }).collect();
         cases.push((s, goals, h));
+    }
+    if let Some(hint) = ASTAR_HINT.with(|c| c.borrow().clone()) {
+        cases.push(hint);
     }
     f.insert("astar".into(), run(|| json!(cases.iter().map(|(s, goals, h)| {
         let r = algo::astar(g, fwd[*s], |x| goals.contains(&inv[&x]), cost, |x| K::from_i64(h[inv[&x]]));
@@ -595,6 +602,7 @@ pub fn c12_graph(out: &mut Out, ag: &AG, rng: &mut Rng) {
 
 // ------------------------------------------------------------------------------------------ C16
 
+thread_local! { pub static ASTAR_HINT: std::cell::RefCell<Option<(usize, Vec<usize>, Vec<i64>)>> = std::cell::RefCell::new(None); }
 thread_local! { pub static ROOT0_ONLY: std::cell::Cell<bool> = std::cell::Cell::new(false); }
 
 fn c16_dom<G>(g: G, fwd: &[G::NodeId], inv: &std::collections::HashMap<G::NodeId, usize>, f: &mut Fields)
@@ -1368,6 +1376,42 @@ pub fn sweep(prop: &str, seed: u64, exhaustive_n: usize, random: usize, nmax: us
                 let n = 4 + rng.below(nmax.saturating_sub(3).max(1));
                 let ag = random_ag(&mut rng, n, directed, 1, 30, false, true);
                 f(out, &ag, &mut rng);
+            }
+        }
+        if prop == "C10" {
+            // re-expansion diamonds: S reaches X directly (w1) and, delta cheaper, through Y; X is under-estimated just
+            // enough to be expanded first over the direct edge, everything else is estimated exactly, so that X has
+            // to be expanded a second time when Y improves it - with an estimate of X that is at least delta
+            for _ in 0..(random / 4).max(6) {
+                let delta = 1 + rng.below(3) as i64;
+                let (a, b) = (1 + rng.below(4) as i64, 1 + rng.below(4) as i64);
+                let w1 = a + b + delta;
+                let l = 1 + rng.below(3);
+                let n = 3 + l + rng.below(3);
+                let mut name: Vec<usize> = (0..n).collect();
+                rng.shuffle(&mut name);
+                let (s, y, x) = (name[0], name[1], name[2]);
+                let mut edges = vec![(s, x, w1), (s, y, a), (y, x, b)];
+                let mut prev = x;
+                for k in 0..l {
+                    edges.push((prev, name[3 + k], 2 * delta + 1 + rng.below(6) as i64));
+                    prev = name[3 + k];
+                }
+                let t = prev;
+                for _ in 0..rng.below(3) {
+                    edges.push((rng.below(n), rng.below(n), 25 + rng.below(6) as i64));
+                }
+                rng.shuffle(&mut edges);
+                let ag = AG { n, directed, edges };
+                let exact = abstract_dist_to(&ag, &[t]);
+                let mut h: Vec<i64> = exact.iter().map(|&d| if d >= INF { 7 } else { d }).collect();
+                if exact[x] < INF {
+                    let hx = delta + rng.below((exact[x] - 2 * delta).max(1) as usize) as i64;
+                    h[x] = hx.min(exact[x]);
+                }
+                ASTAR_HINT.with(|c| *c.borrow_mut() = Some((s, vec![t], h)));
+                f(out, &ag, &mut rng);
+                ASTAR_HINT.with(|c| *c.borrow_mut() = None);
             }
         }
         if prop == "C09" || prop == "C12" {
